@@ -304,6 +304,37 @@ def r_heap_guard(ctx):
                 if is_call(cnt, 'math.prod') and len(cnt[2]) == 1 and cnt[2][0][0] == 'comp' and is_call(cnt[2][0][2], 'builtins.len'):
                     ok = True
         if not ok:
+            # evaluate the whole guard: with more combinations than heap_size the product loop must be unreachable
+            from ..finite import feval, UNKNOWN
+            heap = ('v', 'heap_size', 'P')
+            cnts = set()
+            for atom, pol in ctx.conds(f, nd):
+                for x in walk_term(atom):
+                    if x[0] == 'v' and isinstance(x[2], tuple) and any(
+                            f.defs[d].kind == 'aug' and isinstance(f.defs[d].extra, ast.Mult) for d in x[2]):
+                        cnts.add(x)
+                    if is_call(x, 'math.prod') and len(x[2]) == 1 and x[2][0][0] == 'comp':
+                        cnts.add(x)
+            if len(cnts) == 1:
+                cnt = next(iter(cnts))
+                res = []
+                for cv in (0, 5, 20):
+                    vs = [feval(a, lambda x, cv=cv: cv if x == cnt else (10 if x == heap else UNKNOWN)) for a, p_ in ctx.conds(f, nd)]
+                    if any(v is UNKNOWN for v in vs):
+                        res.append(UNKNOWN)
+                    else:
+                        res.append(all(bool(v) == p_ for v, (a, p_) in zip(vs, ctx.conds(f, nd))))
+                run.count('cases', 3)
+                if res[2] is True:
+                    run.refute('R-PROG', f, 'candidate-product:heap-guard', nd.lineno,
+                               'the guard of the candidate product evaluates to (%s, %s, %s) for a combination count of 0, 5 and 20 with '
+                               'heap_size 10: the loop over product(*candidate sets) is entered although the count exceeds heap_size, '
+                               'so the work is exponential in the number of detected errors' % tuple(res),
+                               inputs='strands with many detected errors (2^n combinations)')
+                    continue
+                if res[2] is False and res[1] is True:
+                    ok = True
+        if not ok:
             # is the loop at least under *some* comparison with heap_size?  then the count is merely in another form
             some = any(any(x == ('v', 'heap_size', 'P') for x in walk_term(a)) for a, p_ in ctx.conds(f, nd))
             fixed = [x for a, p_ in ctx.conds(f, nd) for x in walk_term(a) if is_call(x, 'numpy.prod', 'numpy.product', 'numpy.cumprod')]
@@ -1179,6 +1210,31 @@ def r_tile_clamp(ctx):
                 forms[role] = (clamped, nd.lineno, show(arg)[:60])
     if 'chunk' not in forms or 'marker' not in forms:
         raise AnalysisError("rule R-CLAMP lost its anchor: chunk / marker appends (%s)" % sorted(forms))
+    # a look-back marker is shorter than k (empty) for an error inside the first window: it may be iterated, never indexed
+    # by position
+    marker_lists = set()
+    for nd in f.nodes:
+        if nd.kind == 'stmt' and isinstance(nd.stmt, ast.Expr) and isinstance(nd.stmt.value, ast.Call) and \
+                isinstance(nd.stmt.value.func, ast.Attribute) and nd.stmt.value.func.attr == 'append' and \
+                isinstance(nd.stmt.value.func.value, ast.Name):
+            t = f.term(nd.stmt.value, nd)
+            arg = t[2][0] if t[2] else None
+            if arg is not None and arg[0] == 'sub' and arg[2][0] == 'slice' and arg[1][0] == 'v' and arg[1] != strand and \
+                    arg[1][1] in ctx.kinds.row_names(f):
+                marker_lists.add(nd.stmt.value.func.value.id)
+    hits = []
+    for nd, x in ctx.all_subterms(f):
+        if x[0] == 'sub' and x[2][0] != 'slice' and x[1][0] in ('iter', 'item'):
+            src = [y for y in walk_term(x[1]) if y[0] == 'v' and y[1] in marker_lists]
+            direct = x[1][0] == 'iter' and x[1][1][0] == 'v' and x[1][1][1] in marker_lists
+            viazip = x[1][0] == 'item' and x[1][1][0] == 'iter' and is_call(x[1][1][1], 'builtins.zip', 'builtins.enumerate') and src
+            if (direct or viazip) and x[2] != ('slice', ('c', None), ('c', None), ('c', -1)):
+                hits.append((nd.lineno, show(x)[:60]))
+    run.check(not hits, 'R-CLAMP', f, 'marker-iterated-not-indexed', hits[0][0] if hits else forms['marker'][1],
+              'the look-back marker is only iterated',
+              'the look-back marker is indexed by position (%s): for an error inside the first window the marker holds fewer than k '
+              'vertices (none at all at the first nucleotide), so the index is out of range and repair_dna raises IndexError'
+              % (hits[0][1] if hits else ''), inputs='a first nucleotide that is not an arc of the start vertex; errors at positions < k')
     ok = forms['chunk'][0] == forms['marker'][0]
     run.check(ok, 'R-CLAMP', f, 'marker-and-chunk-clamped-alike', forms['marker'][1],
               'marker and chunk treat a cursor inside the first window alike',
